@@ -81,6 +81,10 @@ func On[T Item](it Item, fn func(*T) error) error {
 			return nil
 		}
 		for _, it := range *col {
+			if IsNil(it) {
+				// a nil member is nothing to visit, whether it is typed or not
+				continue
+			}
 			if err := On(it, fn); err != nil {
 				return err
 			}
@@ -104,7 +108,7 @@ func OnObject(it Item, fn WithObjectFn) error {
 				return nil
 			}
 			for _, it := range *col {
-				if IsLink(it) {
+				if IsNil(it) || IsLink(it) {
 					continue
 				}
 				if err := OnObject(it, fn); err != nil {
@@ -137,7 +141,7 @@ func OnActivity(it Item, fn WithActivityFn) error {
 				return nil
 			}
 			for _, it := range *col {
-				if IsLink(it) {
+				if IsNil(it) || IsLink(it) {
 					continue
 				}
 				if err := OnActivity(it, fn); err != nil {
@@ -171,6 +175,10 @@ func OnIntransitiveActivity(it Item, fn WithIntransitiveActivityFn) error {
 				return nil
 			}
 			for _, it := range *col {
+				if IsNil(it) {
+					// a nil member is nothing to visit, whether it is typed or not
+					continue
+				}
 				if err := OnIntransitiveActivity(it, fn); err != nil {
 					return err
 				}
@@ -201,6 +209,10 @@ func OnQuestion(it Item, fn WithQuestionFn) error {
 				return nil
 			}
 			for _, it := range *col {
+				if IsNil(it) {
+					// a nil member is nothing to visit, whether it is typed or not
+					continue
+				}
 				if err := OnQuestion(it, fn); err != nil {
 					return err
 				}
@@ -231,7 +243,7 @@ func OnActor(it Item, fn WithActorFn) error {
 				return nil
 			}
 			for _, it := range *col {
-				if IsLink(it) {
+				if IsNil(it) || IsLink(it) {
 					continue
 				}
 				if err := OnActor(it, fn); err != nil {
